@@ -108,7 +108,10 @@ def run_sim(script, workdir, name, binary="vipsim", timeout=600, args=None):
         os.remove(st)
     cmd = [os.path.join(BIN, binary)] + (args or ["run", sp, tp, st])
     try:
-        p = subprocess.run(cmd, stdout=subprocess.PIPE, stderr=subprocess.STDOUT, timeout=timeout)
+        env = dict(os.environ)
+        if binary == "vipsim":
+            env["GOMAXPROCS"] = "1"  # see harness/cmd/vipsim/faketime_on.go
+        p = subprocess.run(cmd, stdout=subprocess.PIPE, stderr=subprocess.STDOUT, timeout=timeout, env=env)
     except subprocess.TimeoutExpired:
         raise Machinery("driver timed out: %s" % " ".join(cmd))
     status = open(st).read().strip() if os.path.exists(st) else ""
